@@ -46,6 +46,8 @@ func gen(e *vlib.Env) gcw.Program {
 		YieldP:    []float64{0, 0.2, 0.5}[r.Intn(3)],
 		YieldUs:   []int{0, 50, 200}[r.Intn(3)],
 	}
+	// Message.UUID is not an identity: a quarter of the programs use empty or equal UUIDs (see gcw.Program.UUIDs)
+	p.UUIDs = []string{"", "", "empty", "same"}[vlib.HashStr(e.ID())%4]
 	p.EditAfterPublish = r.Chance(0.3)
 	np := r.Range(1, 4)
 	for i := 0; i < np; i++ {
